@@ -17,6 +17,11 @@ pub struct Spec {
     pub edges: Vec<(usize, usize, bool)>,
     /// Per function, per data type: 0 none, 1 read, 2 write. Empty = no access.
     pub decl: Vec<Vec<u8>>,
+    /// 0: every edge is declared once. 1 / 2: after all edges, every edge is declared a second
+    /// time through the batch form `add_*_edges([(a, b)])`, with the same (1) or the other (2)
+    /// kind. The dependency relation is the same in all three cases.
+    #[serde(default)]
+    pub redeclare: u8,
 }
 
 impl Spec {
@@ -25,6 +30,7 @@ impl Spec {
             n,
             edges: edges.iter().enumerate().map(|(k, &(a, b))| (a, b, k % 2 == 1)).collect(),
             decl: vec![],
+            redeclare: 0,
         }
     }
 
@@ -51,7 +57,11 @@ impl Spec {
             .iter()
             .map(|d| d.iter().map(|a| ["-", "R", "W"][*a as usize]).collect::<String>())
             .collect();
-        format!("n={} edges=[{}] decl=[{}]", self.n, e.join(","), d.join(","))
+        format!("n={} edges=[{}] decl=[{}]{}", self.n, e.join(","), d.join(","), match self.redeclare {
+            0 => "",
+            1 => " (every edge declared again through the batch form)",
+            _ => " (every edge declared again through the batch form with the other kind)",
+        })
     }
 }
 
@@ -68,6 +78,12 @@ pub fn build(spec: &Spec) -> FnGraph<Node> {
             b.add_logic_edge(ids[x], ids[y])
         };
         r.expect("spec edges are acyclic");
+    }
+    if spec.redeclare > 0 {
+        for &(x, y, contains) in &spec.edges {
+            let c = if spec.redeclare == 2 { !contains } else { contains };
+            let _ = if c { b.add_contains_edges([(ids[x], ids[y])]).map(|_| ()) } else { b.add_logic_edges([(ids[x], ids[y])]).map(|_| ()) };
+        }
     }
     b.build()
 }
